@@ -171,12 +171,22 @@ def _run_case(chk, drv, case, stats):
         ri = 0
     elif case.get('look_at') == 'inner' and B['nr'] >= 3:
         ri = B['nr'] // 2
+    elif case.get('look_at') == 'last':
+        ri = B['nr'] - 1 - int(rng.randint(3))
     tag = dict(case, rIdx=ri)
     phi = rng.uniform(-1, 1, size=(nz, nq)) * rng.choice([1.0, 1e3, 1e-3])
     if case.get('strat', case['sub']) % 4 == 1:
         # a potential of very small amplitude (the early linear phase) / a small variation on a large offset
         phi = phi * 1e-9 / max(1e-300, float(np.abs(phi).max())) if case.get('strat', case['sub']) % 8 == 1 else 1e3 + 1e-3 * phi / float(np.abs(phi).max())
     der = np.full((nz, nq), np.nan)
+    if case.get('strat', 0) % 5 == 2 and nq != nz:
+        # a call that the object refuses (the slice handed over theta-first) and that the caller catches comes first: it may leave
+        # nothing behind in the object
+        try:
+            pg.parallel_gradient(np.ascontiguousarray(phi.T), ri, np.empty((nq, nz)))
+        except Exception:  # noqa: BLE001
+            pass
+        tag['refused_call_first'] = True
     out = pg.parallel_gradient(phi, ri, der)
     if not np.isfinite(der).all():
         chk.fail('C13:nonfinite', 'parallel_gradient produced nan/inf from finite data', tag)
@@ -478,6 +488,11 @@ def run(chk):
                 # the magnetic axis r = 0 is the first grid line, held by this process, and it is the surface that is looked at
                 case_['r'] = [0.0] + sorted(case_['r'])[1:]
                 case_.update(nprocs=[1], rank=[0], look_at='first')
+            if it % 15 == 8:
+                # thousands of flux surfaces on this process (a serial run of a production grid), looking at the LAST one
+                rr_ = chk.rng
+                case_.update(r=sorted(rr_.uniform(0.1, 14.5) for _ in range(6000)), nprocs=[1], rank=[0], look_at='last',
+                             order=rr_.choice([4, 5, 6]), nz=12, nq=max(9, case_['deg'] + 2))
             if it % 12 == 3:
                 # reversed shear (equal values of iota on the first and the last radius) with ALL radii on this process, looking at an
                 # inner surface
